@@ -194,6 +194,15 @@ pub enum UE5 {
     B(u8, u32, u8),
 }
 
+/// an unsized enum inside an unsized enum: tag@0, DATA_OFFSET 1, align 1, MIN 1.
+/// N(UE2@1): inner tag@1, inner B(Bool@2) / C(FlatVec<u8,u8>@2: len@2 data@3..); needs 1
+#[flat(sized = false, default = true)]
+pub enum UE6 {
+    #[default]
+    A,
+    N(UE2),
+}
+
 /// portable unsized struct: a@0..2, b@2 (len le16@2..4, data@4.. of le::U16); align 1, MIN 4
 #[flat(sized = false, portable = true, default = true)]
 pub struct PUS {
@@ -1191,6 +1200,73 @@ shape!(U_E5, false, UE5, 4, 4, |b, d| {
             o.c.put(*x);
             o.c.put32(*y);
             o.c.put(*z);
+        }
+    }
+});
+
+shape!(U_E6, UE6, 1, 1, |b, d| {
+    if b.len() < 1 {
+        d.short = true;
+    } else {
+        let t = b[0];
+        if t > 1 {
+            d.mark(0);
+        } else {
+            d.c.put(t);
+            if t == 0 {
+                d.used = 1;
+                d.ext = 1;
+            } else if b.len() < 2 {
+                d.short = true;
+            } else {
+                let it = b[1];
+                if it > 2 {
+                    d.mark(1);
+                } else {
+                    d.c.put(it);
+                    match it {
+                        0 => {
+                            d.used = 2;
+                            d.ext = 2;
+                        }
+                        1 => {
+                            if b.len() < 3 {
+                                d.short = true;
+                            } else {
+                                dec_bool(b, 2, 0, d);
+                                d.used = 3;
+                                d.ext = 3;
+                            }
+                        }
+                        _ => {
+                            if b.len() < 3 {
+                                d.short = true;
+                            } else if let Some(u) = dec_vec(El::U8, 1, 1, &b[2..], 2, d) {
+                                d.used = 2 + u;
+                                d.ext = 2 + u;
+                            }
+                        }
+                    }
+                }
+            }
+        }
+    }
+}, |v, o| {
+    match v.as_ref() {
+        UE6Ref::A => o.c.put(0),
+        UE6Ref::N(inner) => {
+            o.c.put(1);
+            match inner.as_ref() {
+                UE2Ref::A => o.c.put(0),
+                UE2Ref::B(x) => {
+                    o.c.put(1);
+                    obs_bool(x, o);
+                }
+                UE2Ref::C(w) => {
+                    o.c.put(2);
+                    obs_vec_u8(w, o);
+                }
+            }
         }
     }
 });
